@@ -221,6 +221,13 @@ def rollback (s : St) : St :=
 /-- `MutableTree.GetImmutable`: root and version of the immutable tree -/
 def getImmutable (s : St) (v : Int) : Except Err (Option Node) := s.db.getRoot v
 
+/-- `(existingRoot == nil && tree.root == nil) || (existingRoot != nil && bytes.Equal(existingRoot.hash, newHash))` -/
+def sameRoot (H : Bytes → Bytes) (version : Int) (existingRoot root : Option Node) (newHash : Bytes) : Bool :=
+  match existingRoot, root with
+  | none, none => true
+  | some r, _ => decide (r.hash H version = newHash)
+  | none, some _ => false
+
 /-- `MutableTree.SaveVersion`: (hash, version).  State-changing operations that can
 fail return the state reached together with the error (caches, `initialVersionSet`
 and a partly filled batch survive an error in the code). -/
@@ -233,11 +240,7 @@ def saveVersion (H : Bytes → Bytes) (s : St) : Except Err (Bytes × Int) × St
     | .error e => (.error e, s)
     | .ok existingRoot =>
       let newHash := s.workingHash H
-      let same := match existingRoot, s.root with
-        | none, none => true
-        | some r, _ => decide (r.hash H version = newHash)
-        | none, some _ => false
-      if same then
+      if sameRoot H version existingRoot s.root newHash then
         (.ok (newHash, version),
           { s with version := version, root := existingRoot, lsRoot := existingRoot, lsVersion := version })
       else (.error .diffHash, s)
